@@ -6,6 +6,7 @@ import Y0.Model.Dsl
 import Y0.Model.Canon
 import Y0.Model.Mutate
 import Y0.Spec.Sem
+import Y0.Lemmas.SemScope
 import Y0.Driver.Graph
 
 namespace Y0.Driver
@@ -139,6 +140,7 @@ def handleExpr (op : String) (args : List Sexp) : Option Sexp :=
   | "contract", [e] => do pure (okE (contract (← wfExpr? e)))
   | "recursive_contract", [e] => do pure (replyE (recursiveContract (← wfExpr? e)))
   | "markov", [e] => do pure (replyB (hasMarkovPostcondition (← wfExpr? e)))
+  | "well_scoped", [e] => do pure (replyB (.ok (WellScoped (← exprOf? e))))
   | "den", [e, env, s, s'] => do
       let e ← exprOf? e
       let env ← envOf? env
